@@ -1004,6 +1004,13 @@ package collection
 //@   ensures implies(err == nil, tw != nil)
 //@   modifies nothing
 //@   allocates
+// the expiry callback deletes the key it fires for - whatever the cache holds under it by then (a refreshed entry MOVES its
+// timer, so a firing timer always is the entry's current one); the only way out without deleting is a non-string key
+//@ func NewCache closure 0
+//@   property C12 C16
+//@   requires cache != nil && cache.timingWheel != nil
+//@   call return#*: assert !ok
+//@   call Del#0: assert arg_key == key && arg_recv == cache
 //@ func NewCache
 //@   property C16 C07
 //@   results c, err
